@@ -485,7 +485,7 @@ Proof. vm_compute. split; reflexivity. Qed.
 
 (* ---- AppendFloat: the clauses that do not depend on the digit layout ------------------------------------ *)
 
-Definition af_prec (prec : Z) : Z := if (prec <? 0) || (17 <? prec) then 17 else prec.
+Definition af_clamp (prec : Z) : Z := if (prec <? 0) || (17 <? prec) then 17 else prec.
 
 Lemma append_float_trivial_proof : forall b spare f prec,
   (f_finite f = false -> append_float b spare f prec = Ok b) /\
@@ -494,10 +494,12 @@ Proof.
   intros b spare f prec. split.
   - unfold f_finite, append_float. intros H. destruct (f_is_nan f || f_is_inf f); [reflexivity|discriminate].
   - intros s ->. unfold append_float. cbn [f_is_nan f_is_inf orb].
-    fold (af_prec prec).
-    assert (Hp : 0 <= af_prec prec <= 17) by (unfold af_prec; destruct ((prec <? 0) || (17 <? prec)) eqn:E; lia).
-    remember (af_prec prec) as k eqn:Ek. clear Ek.
-    assert (Hin : In k (zrange 0 17)) by (apply zrange_in; exact Hp).
-    destruct s; vm_compute in Hin;
-      repeat (destruct Hin as [<-|Hin]; [vm_compute; reflexivity|]); destruct Hin.
+    assert (Hm : forall z, af_mant (S754_zero z) prec = 0).
+    { intros z. unfold af_mant, af_prec. fold (af_clamp prec).
+      assert (Hp : 0 <= af_clamp prec <= 17) by (unfold af_clamp; destruct ((prec <? 0) || (17 <? prec)) eqn:E; lia).
+      remember (af_clamp prec) as k eqn:Ek. clear Ek.
+      assert (Hin : In k (zrange 0 17)) by (apply zrange_in; exact Hp).
+      destruct z; vm_compute in Hin;
+        repeat (destruct Hin as [<-|Hin]; [vm_compute; reflexivity|]); destruct Hin. }
+    destruct s; cbn [flt SFltb SFcompare fzero fneg SFopp negb]; rewrite Hm; reflexivity.
 Qed.
